@@ -709,6 +709,19 @@ def gen_assertions(rnd, L, sig, tg, depth, n_assert, planted_p=0.55, dense_p=0.2
         vs = sig.vars[srt]
         lit = (lambda v: int_lit(v)) if srt == "Int" else (lambda v: real_lit(rnd, v))
         dense = []
+        if rnd.random() < 0.45:
+            # clauses of 2-3 difference literals only (no unit constraints), 4-7 clauses per variable, constants in [-3,3]:
+            # long propagation chains with several alternative paths between the same two vertices, so that explanations
+            # of deduced bounds have to pick the right path (25 % of such instances exposed seeded/C05 to C11)
+            vs = vs[:7]
+            for _ in range(int(len(vs) * (4 + 3 * rnd.random()))):
+                lits = []
+                for _ in range(rnd.choice([2, 2, 3])):
+                    x, y = rnd.sample(vs, 2)
+                    a = "(%s (- %s %s) %s)" % (rnd.choice(["<=", "<", ">=", ">"]), x, y, lit(rnd.randint(-3, 3)))
+                    lits.append(a if rnd.random() < 0.7 else "(not %s)" % a)
+                dense.append("(or %s)" % " ".join(lits))
+            return dense, pool
         # near the sat/unsat boundary of such systems (about 1.2-3 clauses per variable); far above it everything is unsat
         for _ in range(rnd.randint(len(vs) + 1, 3 * len(vs) + 2) if rnd.random() < 0.8 else rnd.randint(8, 40)):
             lits = []
